@@ -1,6 +1,7 @@
 (* C02 — the unconditional refinement statements are FALSE for the code as it is: witnesses found by
-   running the heap model (they are the model-level images of findings D4, D5, D9 of docs/C02.md), and a
-   concrete instance showing that the hypotheses of the positive theorem are satisfiable. *)
+   running the heap model (the model-level images of the known findings D5 and D9 of docs/C02.md), the
+   regression example for the repaired D4, and a concrete instance showing that the hypotheses of the
+   positive theorem are satisfiable. *)
 From Coq Require Import List ZArith NArith Bool Lia.
 From Verif Require Import c02.Path c02.PathProofs c02.HeapPath c02.HeapInv c02.HeapProofs c02.HeapAbs.
 Import ListNotations.
@@ -13,51 +14,49 @@ Definition refines (cfg : config) (h : heap) (ps : list ptr) (v : hval) (p : pat
   | Some j' => exists h' A' u, update cfg h (Some ps) v p n = Some (h', A', u) /\ exists fuel, abs fuel h' u = Some j'
   end.
 
-(* 1. without [no_slice]: everything else as in abs_update (the new value is a number) *)
-Definition full_any_path (cfg : config) : Prop := forall p h ps v j fp n jn,
-  alloc_wf ps -> orep h ps j v fp -> NoDup fp -> frep h ps jn n -> refines cfg h ps v p n j jn.
-
-(* 2. without "the new value is frozen": any acyclic new value, paths without slices *)
+(* 1. without "the new value is frozen": any acyclic new value, paths without slices *)
 Definition full_any_value (cfg : config) : Prop := forall p h ps v j fp n jn,
   alloc_wf ps -> orep h ps j v fp -> NoDup fp -> (exists fuel, abs fuel h n = Some jn) -> no_slice p ->
   refines cfg h ps v p n j jn.
 
-(* 3. without the ownership invariant: any acyclic state, paths without slices, a frozen new value *)
+(* 2. without the ownership invariant: any acyclic state, paths without slices, a frozen new value *)
 Definition full_any_state (cfg : config) : Prop := forall p h ps v j n jn,
   alloc_wf ps -> (exists fuel, abs fuel h v = Some j) -> frep h ps jn n -> no_slice p ->
   refines cfg h ps v p n j jn.
 
-(* ---- D4: [1,2,3] | (.[2],.[0:1][1]) |= 7, the state after the first path ---- *)
+(* ---- D4 (repaired by 8b3b8e6): [1,2,3] | (.[2],.[0:1][1]) |= 7, the state after the first path.
+   With the two-index reslice of the old code the sub-slice of the allocated array grew in place over the
+   parent's next cell; with the current three-index reslice the model gives the reference value. ---- *)
 Definition h4 : heap := [OArr [HNum 1; HNum 2; HNum 7]].
 Definition p4 : path := [PS (Some 0%Z) (Some 1%Z); PI 1].
 
-Lemma orep_h4 : orep h4 [PArr 0 0] (JArr [JNum 1; JNum 2; JNum 7]) (HArr 0 0 3 3) [0].
-Proof.
-  apply orep_arr. exists 0, 0, 3, 3, [HNum 1; HNum 2; HNum 7], [[]; []; []].
-  repeat split; simpl; auto. right. repeat split; simpl; auto.
-Qed.
+Example D4_regression :
+  let run cfg := match update cfg h4 (Some [PArr 0 0]) (HArr 0 0 3 3) p4 (HNum 7%Z) with
+                 | Some (h', _, u) => abs 8 h' u | None => None end in
+  run two_index = Some (JArr [JNum 1; JNum 7; JNum 7; JNum 7]) /\
+  run current = Some (JArr [JNum 1; JNum 7; JNum 2; JNum 7]) /\
+  setpath (JArr [JNum 1; JNum 2; JNum 7]) p4 (JNum 7%Z) = Some (JArr [JNum 1; JNum 7; JNum 2; JNum 7]).
+Proof. vm_compute. repeat split. Qed.
 
-Theorem abs_update_refuted_slice : ~ full_any_path as_is.
-Proof.
-  intro H.
-  specialize (H p4 h4 [PArr 0 0] (HArr 0 0 3 3) (JArr [JNum 1; JNum 2; JNum 7]) [0] (HNum 7%Z) (JNum 7%Z)).
-  unfold refines in H. simpl setpath in H.
-  destruct H as (h' & A' & u & Hu & fuel & Ha).
-  - intros a off [E|[]]. inversion E. auto.
-  - apply orep_h4.
-  - repeat constructor. simpl. tauto.
-  - split; auto.
-  - vm_compute in Hu. inversion Hu; subst. clear Hu.
-    do 6 (destruct fuel as [|fuel]; [discriminate|]). vm_compute in Ha. discriminate.
-Qed.
+(* ---- D5 on the current code: [0,1] | (.[1:],.[1:]) |= [.], the state after the first path; the new
+   value is the array the update body built around the slice it received: the result is CYCLIC ---- *)
+Definition h5s : heap := [OArr [HNum 0; HNum 1]; OArr [HNum 0; HArr 0 1 1 1]; OArr [HArr 1 1 1 1]].
 
-(* the proposed patch (three-index reslice) gives the reference result on the witness *)
-Example patched_D4 :
-  match update patched h4 (Some [PArr 0 0]) (HArr 0 0 3 3) p4 (HNum 7%Z) with
-  | Some (h', _, u) => abs 8 h' u
-  | None => None
-  end = setpath (JArr [JNum 1; JNum 2; JNum 7]) p4 (JNum 7%Z).
-Proof. vm_compute. reflexivity. Qed.
+Lemma cyc5s : forall fuel, abs fuel [OArr [HNum 0; HNum 1]; OArr [HNum 0; HArr 1 1 1 1]; OArr [HArr 1 1 1 1]] (HArr 1 1 1 1) = None.
+Proof. induction fuel; auto. simpl. simpl in IHfuel. rewrite IHfuel. auto. Qed.
+
+Example D5_cyclic :
+  exists h' A',
+    update current h5s (Some [PArr 1 0]) (HArr 1 0 2 2) [PS (Some 1%Z) None] (HArr 2 0 1 1) = Some (h', A', HArr 1 0 2 2) /\
+    (forall fuel, abs fuel h' (HArr 1 0 2 2) = None) /\
+    abs 5 h5s (HArr 1 0 2 2) = Some (JArr [JNum 0; JArr [JNum 1]]) /\
+    abs 5 h5s (HArr 2 0 1 1) = Some (JArr [JArr [JArr [JNum 1]]]).
+Proof.
+  eexists. eexists. split. { vm_compute. reflexivity. }
+  split. { intros fuel. destruct fuel; auto. simpl. pose proof (cyc5s fuel) as C. simpl in C. rewrite C.
+           destruct fuel; auto. }
+  split; reflexivity.
+Qed.
 
 (* ---- D5-style: a new value that contains an allocated container of the state ---- *)
 Definition h5 : heap := [OArr [HNull]].
@@ -65,7 +64,7 @@ Definition h5 : heap := [OArr [HNull]].
 Lemma cyc5 : forall fuel, abs fuel [OArr [HArr 0 0 1 1]] (HArr 0 0 1 1) = None.
 Proof. induction fuel; auto. simpl. simpl in IHfuel. rewrite IHfuel. auto. Qed.
 
-Theorem abs_update_refuted_alias : ~ full_any_value as_is.
+Theorem abs_update_refuted_alias : ~ full_any_value current.
 Proof.
   intro H.
   specialize (H [PI 0%Z] h5 [PArr 0 0] (HArr 0 0 1 1) (JArr [JNull]) [0] (HArr 0 0 1 1) (JArr [JNull])).
@@ -84,7 +83,7 @@ Qed.
 Definition h9 : heap :=
   [OArr [HNull]; OArr [HNull; HNull]; OArr [HArr 1 0 2 2]; OArr [HArr 2 0 1 1; HArr 2 0 1 1]].
 
-Theorem abs_update_refuted_shared : ~ full_any_state as_is.
+Theorem abs_update_refuted_shared : ~ full_any_state current.
 Proof.
   intro H.
   specialize (H [PI 0%Z; PI 0%Z] h9 [PArr 2 0] (HArr 3 0 2 2)
@@ -106,7 +105,7 @@ Example abs_update_nonvacuous :
   let ps := [PArr 0 0] in
   alloc_wf ps /\ orep h ps (JArr [JNum 1; JObj [([97%N], JNum 2)]]) (HArr 0 0 2 3) [0] /\ NoDup [0] /\
   frep h ps (JNum 7) (HNum 7) /\ no_slice [PI 2%Z] /\
-  update as_is h (Some ps) (HArr 0 0 2 3) [PI 2%Z] (HNum 7) =
+  update current h (Some ps) (HArr 0 0 2 3) [PI 2%Z] (HNum 7) =
     Some ([OArr [HNum 1; HMap 1; HNum 7]; OMap [([97%N], HNum 2)]], Some ps, HArr 0 0 3 3) /\
   setpath (JArr [JNum 1; JObj [([97%N], JNum 2)]]) [PI 2%Z] (JNum 7) = Some (JArr [JNum 1; JObj [([97%N], JNum 2)]; JNum 7]).
 Proof.
@@ -130,7 +129,7 @@ Qed.
 Theorem heap_full_refuted :
   ~ (forall p h ps v j n jn,
        alloc_wf ps -> (exists fuel, abs fuel h v = Some j) -> (exists fuel, abs fuel h n = Some jn) ->
-       refines as_is h ps v p n j jn).
+       refines current h ps v p n j jn).
 Proof.
   intro H. apply abs_update_refuted_shared. intros p h ps v j n jn Hwf Hv Hn Hns. apply H; auto.
   exists (S (depth jn)). eapply orep_abs; eauto.
